@@ -11,6 +11,9 @@ R26.2 error discipline of the reader: the semantic actions of the grammar reader
       frozen site counts *and* every site there is reviewed (no baseline-unreviewed entries allowed).
 R26.5 the per-k analysis caches have a slot for every admissible k (const relation, = C06 R06.4).
 R26.6 decidable validates its lookahead limit against MAX_K before the first cache access (= C06 R06.5).
+R26.7 guard of the reviewed `expect` in Cfg::get_non_terminal_ordering ("Start symbol not found in any production"): it cannot
+      fire only while the productivity check sees the start symbol, i.e. while Cfg::get_non_terminal_set puts self.st into the
+      set on every path (an undefined start symbol is then reported as non-productive before any analysis runs).
 R26.4 unsigned-subtraction inventory on the same reachable set: each overflow-checked `a - b` is discharged by a dominating
       guard a >= b (subguard.py) or reviewed in SUB_TABLE.
 Other implicit panics (indexing, additions, RefCell borrows, stack overflow) depend on value ranges: NOT decided.
@@ -129,7 +132,54 @@ def check(ctx):
     c06.cache_capacity(ctx, ctx.facts(), rule="R26.5")
     c06.limit_validated(ctx, ctx.facts(), rule="R26.6")
 
+    start_symbol_in_non_terminal_set(ctx, ctx.facts())
+
     # R26.3: reviewed-safe entries that rest on another property's rule are re-evaluated here
     # (the unwrap in Cfg::get_terminal_index_function cannot fire only while the lookup key equals the de-duplication key)
     from . import c18
     c18.check(ctx)
+
+
+
+def start_symbol_in_non_terminal_set(ctx, facts):
+    """R26.7 (added after seed C26-c)"""
+    from .. import cfg as cfgmod
+    from ..dataflow import raw_operand_place, forward_derived
+    CFG = "parol::grammar::cfg::Cfg"
+    b = facts.body(CFG + "::get_non_terminal_set")
+    dom = cfgmod.Dom(b)
+    rets = b.return_blocks()
+    BUILD = {"insert", "once", "chain", "extend", "push", "from", "from_iter", "extend_one"}
+    ok = False
+    where_ = where(b)
+    for bi, si, p, rv, line, mac in b.assigns():
+        src = rv[-1] if rv[0] in ("ref", "cfd") else (rv[1][1] if rv[0] == "use" and rv[1][0] in ("c", "m") else None)
+        if not src:
+            continue
+        from ..dataflow import raw_place
+        rp = raw_place(b, src)
+        if not (rp[0] == 1 and any(isinstance(e, list) and e[0] == "f" and e[2] == "st" and e[3] == CFG for e in rp[1:])):
+            continue
+        der = forward_derived(b, [p[0]])
+        for c in b.calls():
+            if (c.path or "").split("::")[-1] in BUILD and any(a[0] in ("c", "m") and a[1][0] in der for a in c.args):
+                if all(dom.dominates(c.bb, r) for r in rets):
+                    ok = True
+                    where_ = where(b, c.line)
+    # also accept the start symbol read directly as a call argument (no intermediate assignment)
+    for c in b.calls():
+        for a in c.args:
+            rp = raw_operand_place(b, a)
+            if rp and rp[0] == 1 and any(isinstance(e, list) and e[0] == "f" and e[2] == "st" and e[3] == CFG for e in rp[1:]):
+                der = forward_derived(b, [c.dest[0]])
+                for c2 in b.calls():
+                    if (c2.path or "").split("::")[-1] in BUILD and any(x[0] in ("c", "m") and x[1][0] in der for x in c2.args) \
+                            and all(dom.dominates(c2.bb, r) for r in rets):
+                        ok = True
+                        where_ = where(b, c2.line)
+    ctx.check(ok, "R26.7", "Cfg::get_non_terminal_set|contains-start-symbol",
+              "the start symbol is put into the non-terminal set on every path",
+              "Cfg::get_non_terminal_set no longer puts the start symbol (self.st) into the set unconditionally: a start symbol "
+              "without productions is then invisible to the productivity check, and the `expect(\"Start symbol not found in any "
+              "production\")` in Cfg::get_non_terminal_ordering panics for such a grammar (e.g. one whose other non-terminals are "
+              "unreferenced %skip primaries)", where_)
